@@ -197,7 +197,11 @@ static int gfs_syscall_(void)
 #else
 #define GFS_FAULT_SHORT() (gfs_in()->fault_short)
 /* errno of the injected failure: the call's typical error, or EINTR (legal for every blocking call) */
+#ifdef GFS_NO_SYMBOLIC_EINTR   /* relocation-mode full runs: EINTR is covered by the enumerated f2 variants */
+#define GFS_FAULT_ERRNO(dflt) (dflt)
+#else
 #define GFS_FAULT_ERRNO(dflt) (gfs_in()->fault_eintr ? EINTR : (dflt))
+#endif
 #endif
 #ifdef GFS_SHORT_LEN
 #define GFS_SHORTLEN() ((uint32_t) (GFS_SHORT_LEN))   /* concrete per obligation */
@@ -541,17 +545,36 @@ static int v_clock_gettime(clockid_t id, struct timespec *tp)
  * Only the `ovni.finished` number is tracked.  json_serialize_to_file_pretty is NOT
  * modelled: the harness includes its REAL text (extracted from src/parson.c by the
  * driver on every run) so that its fopen/fputs/fclose error handling is under test. */
-static struct { int used; int finished; } gfs_meta;
-static JSON_Value *gv_json_value_init_object(void) { gfs_meta.used = 1; gfs_meta.finished = 0; return (JSON_Value *) &gfs_meta; }
+static struct { int used; int finished; unsigned keys; } gfs_meta;
+/* keys the emulator needs in every thread stream (doc/user/runtime/trace_spec.md; C12 checks that the
+ * emulator refuses a stream that lacks one of them) */
+static const char *const gfs_meta_key[] = { "version", "ovni.lib.version", "ovni.lib.commit", "ovni.part", "ovni.tid",
+	"ovni.pid", "ovni.loom", "ovni.app_id", "ovni.require.ovni", "ovni.finished", "ovni.rank", "ovni.nranks", "ovni.loom_cpus" };
+#define GFS_NKEYS 13
+#define GFS_KEYS_MANDATORY 0x3ffu      /* the first 10 */
+static unsigned gfs_ser_keys;           /* keys present in the last serialisation */
+static void gfs_meta_set(const char *k)
+{
+	for (int i = 0; i < GFS_NKEYS; i++)
+		if (gfs_streq(k, gfs_meta_key[i])) gfs_meta.keys |= 1u << i;
+}
+static JSON_Value *gv_json_value_init_object(void)
+{
+	static int other;    /* objects other than the thread's metadata root (e.g. one per CPU) */
+	if (gfs_meta.used) return (JSON_Value *) &other;
+	gfs_meta.used = 1; gfs_meta.finished = 0; gfs_meta.keys = 0;
+	return (JSON_Value *) &gfs_meta;
+}
 static JSON_Object *gv_json_value_get_object(const JSON_Value *v) { return (JSON_Object *) v; }
 static JSON_Status gv_dotset_number(JSON_Object *o, const char *k, double n)
 {
 	(void) o;
 	if (gfs_streq(k, "ovni.finished")) gfs_meta.finished = (n == 1.0);
+	gfs_meta_set(k);
 	return JSONSuccess;
 }
-static JSON_Status gv_dotset_string(JSON_Object *o, const char *k, const char *s) { (void) o; (void) k; (void) s; return JSONSuccess; }
-static JSON_Status gv_dotset_value(JSON_Object *o, const char *k, JSON_Value *v) { (void) o; (void) k; (void) v; return JSONSuccess; }
+static JSON_Status gv_dotset_string(JSON_Object *o, const char *k, const char *s) { (void) o; (void) s; gfs_meta_set(k); return JSONSuccess; }
+static JSON_Status gv_dotset_value(JSON_Object *o, const char *k, JSON_Value *v) { (void) o; (void) v; gfs_meta_set(k); return JSONSuccess; }
 static JSON_Value *gv_init_array(void) { static int a; return (JSON_Value *) &a; }
 static JSON_Array *gv_array(const JSON_Value *v) { return (JSON_Array *) v; }
 static JSON_Object *gv_object(const JSON_Value *v) { return (JSON_Object *) v; }
@@ -562,6 +585,7 @@ static char *gv_serialize_to_string_pretty(const JSON_Value *v)
 {
 	(void) v;
 	gfs_ser_finished = gfs_meta.finished;
+	gfs_ser_keys = gfs_meta.keys;
 	return gfs_serbuf;
 }
 static void gv_free_serialized_string(char *s) { (void) s; }
